@@ -1,2 +1,87 @@
--- Driver stub for C07 (replaced when the property's model driver is written).
-def main : IO Unit := IO.println "C07: no driver yet"
+import TsVerif.Common.IO
+import TsVerif.C07.Judge
+/-!
+Driver for C07.  Input lines (written by harness/src/bin/c07.rs):
+
+    hist <id> kind=.. lang=.. allocs=.. live_delta=<n>
+    dump <id> hasext=<0|1>  … dump_tree lines …  enddump
+    arrcase <id> / arrop <op…> / arrreal <size> <cap> c0 c1 … / arrend <id> ops=.. answered=..
+    inlq <id> pb pr pc sb sr sc la | inl can=.. inline=.. rb=pb pr pc sb sr sc la
+
+Output: `<id> kind=<hist|dump|arr|inl> corr=<ok|na|DIFF:…> judge=<ok|FAIL:…> …`.
+-/
+open TsVerif TsVerif.C07 TsGen
+
+structure St where
+  dumpId : String := ""
+  hasExt : Bool := false
+  lines : Array String := #[]
+  inDump : Bool := false
+  arr : Arr := { contents := [], capacity := 0 }
+  arrId : String := ""
+  arrOp : List String := []
+  arrBad : Option String := none
+  arrJudge : Option String := none
+  arrN : Nat := 0
+
+def kvGet (ws : List String) (k : String) : String :=
+  (ws.findSome? fun w => match w.splitOn "=" with | [a, b] => if a == k then some b else none | _ => none).getD ""
+
+def step (s : St) (line : String) : IO St := do
+  if s.inDump then
+    if line == "enddump" then
+      let j := match parseDump s.lines.toList with
+        | some d => (match judgeTree s.hasExt d.root with | some e => s!"FAIL:{e}" | none => "ok")
+        | none => "FAIL:unreadable-dump"
+      IO.println s!"{s.dumpId} kind=dump corr=na judge={j} nodes={s.lines.size}"
+      return { s with inDump := false, lines := #[] }
+    else return { s with lines := s.lines.push line }
+  match line.splitOn " " with
+  | "hist" :: id :: ws =>
+    let d := (kvGet ws "live_delta").toInt?.getD 1
+    let j := if judgeBalance d then "ok" else s!"FAIL:allocator-balance:{d}"
+    IO.println s!"{id} kind=hist corr=na judge={j} hkind={kvGet ws "kind"} lang={kvGet ws "lang"} allocs={kvGet ws "allocs"}"
+    return s
+  | ["dump", id, he] => return { s with dumpId := id, hasExt := he == "hasext=1", inDump := true, lines := #[] }
+  | ["arrcase", id] => return { s with arr := { contents := [], capacity := 0 }, arrId := id, arrBad := none, arrJudge := none, arrN := 0 }
+  | "arrop" :: op => return { s with arrOp := op }
+  | "arrreal" :: sz :: cap :: cs =>
+    let acc := accessesOf s.arr s.arrOp
+    let a' := applyArr s.arr s.arrOp
+    let real : Arr := { contents := cs.map natOf, capacity := natOf cap }
+    let bad := if a' == real && natOf sz == real.size then s.arrBad
+      else s.arrBad <|> some s!"op#{s.arrN}:{" ".intercalate s.arrOp}:model=({a'.size},{a'.capacity}):real=({sz},{cap})"
+    let jd := if decide (real.size ≤ real.capacity) && inBoundsB real.capacity acc then s.arrJudge
+      else s.arrJudge <|> some s!"op#{s.arrN}:{" ".intercalate s.arrOp}:out-of-bounds-or-size>capacity"
+    return { s with arr := a', arrBad := bad, arrJudge := jd, arrN := s.arrN + 1 }
+  | "arrend" :: id :: ws =>
+    let corr := match s.arrBad with | some b => s!"DIFF:{b}" | none => if kvGet ws "ops" == kvGet ws "answered" then "ok" else "DIFF:cunit-died"
+    let j := match s.arrJudge with | some b => s!"FAIL:array:{b}" | none => "ok"
+    IO.println s!"{id} kind=arr corr={corr} judge={j} ops={s.arrN}"
+    return s
+  | "inlq" :: id :: rest =>
+    let (q, r) := rest.span (· != "|")
+    let v := q.map natOf
+    let r := r.drop 2
+    let can := kvGet r "can" == "1"
+    let inl := kvGet r "inline" == "1"
+    let rb := ((r.dropWhile fun w => !w.startsWith "rb=").map fun w => natOf ((w.splitOn "=").getLast!))
+    match v with
+    | [pb, pr, pc, sb, sr, sc, la] =>
+      let p : Length := ⟨pb, ⟨pr, pc⟩⟩
+      let sz : Length := ⟨sb, ⟨sr, sc⟩⟩
+      let m := ts_subtree_can_inline p sz la
+      let corr := if m == can then "ok" else s!"DIFF:generated-can_inline={m}:real={can}"
+      let expect := if inl then [pb, pr, pc, sb, 0, sb, la] else [pb, pr, pc, sb, sr, sc, la]
+      let j := if inl != can then "FAIL:inline-decision-differs-from-can_inline"
+        else if rb != expect then s!"FAIL:stored-value-truncated:stored={rb}:given={v}"
+        else "ok"
+      IO.println s!"{id} kind=inl corr={corr} judge={j} can={can}"
+      return s
+    | _ =>
+      IO.println s!"{id} kind=inl corr=DIFF:bad-line judge=ok"
+      return s
+  | _ => return s
+
+def main : IO Unit := do
+  let _ ← foldLines (← IO.getStdin) ({} : St) step
